@@ -168,7 +168,7 @@ def concretize(gen, pool, rnd, garbage=False):
             else:
                 cmds.append({"kind": "go", "line": rnd.choice(["go depth 2", "go depth 3", "go depth 5", "go movetime 300", "go", "go depth 4 movetime 2000"])})
         elif c == "fin":
-            cmds.append({"kind": "wait", "line": "", "timeout": 12.0})
+            cmds.append({"kind": "wait", "line": "", "timeout": 60.0})
         elif c == "position same":
             last = [x for x in cmds if x.get("kind") == "position" and x.get("valid")]
             cmds.append(dict(last[-1]) if last else pool.position_cmd("open"))
@@ -395,7 +395,7 @@ def check_uci(pid, tier, seed):
     if pid == "C07":
         for j, f in enumerate(pool.hard_roots if not quick else pool.hard_roots[seed % 3::3]):
             pc = {"kind": "position", "line": "position fen " + f, "base": "fen", "fen": list(f), "pos": uci_driver.fen_to_pos(f), "moves": [], "valid": True}
-            sessions.append((250000 + j, True, "immediate", [pc, {"kind": "go", "line": rnd.choice(["go depth 1", "go depth 3", "go movetime 200"])}, {"kind": "wait", "line": "", "timeout": 20.0},
+            sessions.append((250000 + j, True, "immediate", [pc, {"kind": "go", "line": rnd.choice(["go depth 1", "go depth 3", "go movetime 200"])}, {"kind": "wait", "line": "", "timeout": 60.0},
                                                              {"kind": "go", "line": "go"}, {"kind": "stop", "line": "stop"}, {"kind": "quit", "line": "quit"}]))
     for j, cmdsq in enumerate(extra * (1 if quick else 10)):
         sessions.append((100000 + j, True, "immediate", concretize({"start": "book", "cmds": cmdsq}, pool, rnd)))
@@ -530,7 +530,7 @@ def check_c14(pid, tier, seed):
     # every garbage line at least once, right before a go
     for j, gline in enumerate(GARBAGE):
         cm = [garbage_cmd(gline)]
-        cm += [{"kind": "go", "line": "go depth 1"}, {"kind": "wait", "line": "", "timeout": 12.0}, {"kind": "quit", "line": "quit"}]
+        cm += [{"kind": "go", "line": "go depth 1"}, {"kind": "wait", "line": "", "timeout": 60.0}, {"kind": "quit", "line": "quit"}]
         sessions.append((50000 + j, False, "immediate", cm))
     traces = run_sessions(cli, wd, "uci14", sessions)
     validate(chk, traces, pid)
